@@ -37,6 +37,9 @@ def cmd_run(mid, checks):
     dst = os.path.join(SEEDED, mid)
     meta = json.load(open(os.path.join(dst, 'meta.json')))
     checks = checks or [meta['property']]
+    # evidence, replays and work files of runs against a changed /repo are kept apart: evidence/ is only ever
+    # written by checks run on the unchanged tree
+    os.environ.setdefault('VERIF_SCRATCH', 'seeded')
     assert sh('git -C /repo status --porcelain --untracked-files=no').stdout.strip() == '', '/repo not clean'
     r = sh('git -C /repo apply %s/patch.diff' % dst)
     if r.returncode != 0:
